@@ -13,7 +13,7 @@ ID = 'C03'
 LEVEL = 'fault_enumeration'
 RULE = ('corpus of (program, query, pre-existing bindings): A body trees with <= N operators in the C05 context; B '
         'single-clause predicates over all head-argument shapes x query shapes; C the meta-call programs of C09 (once, '
-        'findall, \\+, call/N); D bare unify(t1,t2) over a term universe; E clauses that assert/retract (fresh engine per '
+        'findall, \\+, call/N), the builtin goals also asked directly through the API and wrapped in call/1; D bare unify(t1,t2) over a term universe; E clauses that assert/retract (fresh engine per '
         'run); F programs whose fact predicates are Python predicates (returning generators, and returning cursor objects - iterators with a close() that the application keeps referenced), closed / dropped after every number of answers and with an exception at every event; H dynamic facts containing variables used by clauses whose later goals bind them in several ways; corpus A also in a process where every logger is at DEBUG and a handler keeps the log records in memory. For each: a fault-free run counts the answers n, '
         'then one run per ending: exhaustion, and for every k in 0..n {close() after the k-th answer, dropping the last '
         'reference, throw() by the consumer}; for F additionally one run per event j at which a Python predicate raises. '
@@ -342,6 +342,14 @@ def scen_meta(goal, tag, g2, mk, usesL, via_var, cont):
     for q in case.queries[:2]:
         label = 'program:\n%s(+ the C09 support predicates)\nquery %s' % (show_program([clause]), show_term(q))
         out.append(Scenario(label, build, q, (), ref_build=ref_build, anon=('Lq',) if usesL else ()))
+    if via_var is False and cont is None:
+        # the builtin goal itself, asked DIRECTLY through the API (yp.query('once', [G]) ...) - and
+        # wrapped in call/1 - instead of from a compiled clause
+        b = mk(g2)
+        if b[0] == 'call' and b[1][0] == 'f':
+            for direct in (b[1], F('call', b[1])):
+                label = 'the C09 support predicates; query through the API: %s' % show_term(direct)
+                out.append(Scenario(label, build, direct, (), ref_build=ref_build, anon=('L',) if usesL else ()))
     return out
 
 
